@@ -1294,6 +1294,9 @@ class element_if(x12_node):
                 # as a format qualifier DT means CCYYMMDDHHMM (the data type DT also takes 6 and 8 digits)
                 if dtype == 'DT' and len(elem_val) != 12:
                     continue
+                # likewise TM means HHMM (the data type TM also takes seconds and decimal seconds)
+                if dtype == 'TM' and len(elem_val) != 4:
+                    continue
                 valid_type |= validation.IsValidDataType(elem_val, dtype, self.root.param.get('charset'))
             if not valid_type:
                 if 'TM' in type_list:
